@@ -43,6 +43,53 @@ theorem serial_ok (cm : ChildMaker ι ε) (pop new : List ι) :
   · rintro ⟨hl, hcs⟩
     exact ⟨.ok new, (reach_collectResults_ok _ _ _ _).mpr ⟨new, hl, by simp, hcs⟩, by simp⟩
 
+/-- **Any population type** (`Vec`, and set-like collections whose `from_iter` merges equal children): a
+    successful step applies the child maker exactly `size(pop)` times - the size the population has when
+    the step starts - always to that population, and holds `from_iter` of the children afterwards; a failed
+    step leaves the population as it was.  In particular a second step on a population that shrank makes as
+    many children as the population has *then*. -/
+theorem serialP_ok {P : Type} (L : PopLike P ι) (cm : P → Rand (Except ε ι)) (pop new : P) :
+    Reach (serialNextP L cm pop) (.ok (), new) ↔
+      ∃ children : List ι, children.length = L.size pop ∧ (∀ c ∈ children, Reach (cm pop) (.ok c)) ∧
+        new = L.ofList children := by
+  simp only [serialNextP, bind_eq, pure_eq, reach_bind]
+  constructor
+  · rintro ⟨r, hr, h⟩
+    cases r with
+    | error e => simp at h
+    | ok out =>
+      simp only [reach_pure, Prod.mk.injEq, true_and] at h
+      obtain ⟨cs, hl, hout, hcs⟩ := (reach_collectResults_ok _ _ _ _).mp hr
+      simp only [List.nil_append] at hout
+      subst hout
+      exact ⟨out, hl, by simpa using hcs, by simpa using h.symm⟩
+  · rintro ⟨cs, hl, hcs, rfl⟩
+    exact ⟨.ok cs, (reach_collectResults_ok _ _ _ _).mpr ⟨cs, hl, by simp, hcs⟩, by simp⟩
+
+theorem serialP_err {P : Type} (L : PopLike P ι) (cm : P → Rand (Except ε ι)) (pop after : P) (e : ε)
+    (h : Reach (serialNextP L cm pop) (.error e, after)) : after = pop := by
+  simp only [serialNextP, bind_eq, pure_eq, reach_bind] at h
+  obtain ⟨r, _, h⟩ := h
+  cases r with
+  | error e' => simp only [reach_pure, Prod.mk.injEq] at h; exact h.2.symm
+  | ok out => simp at h
+
+/-- for `Vec` populations this is `serial_next` as modelled above -/
+theorem serialP_vec (cm : ChildMaker ι ε) (pop : List ι) :
+    serialNextP PopLike.vec cm pop = serialNext cm pop := rfl
+
+/-- two consecutive successful steps: the second makes `size(p1)` children from `p1`, whatever size the
+    population had before the first step -/
+theorem serialP_two_steps {P : Type} (L : PopLike P ι) (cm : P → Rand (Except ε ι)) (p0 p1 p2 : P)
+    (_h1 : Reach (serialNextP L cm p0) (.ok (), p1)) (h2 : Reach (serialNextP L cm p1) (.ok (), p2)) :
+    ∃ children : List ι, children.length = L.size p1 ∧ (∀ c ∈ children, Reach (cm p1) (.ok c)) ∧
+      p2 = L.ofList children :=
+  (serialP_ok L cm p1 p2).mp h2
+
+/-- a set-like population really can shrink: `from_iter` that removes duplicates, two equal children -/
+example : Reach (serialNextP (ι := Nat) (ε := Unit) ⟨id, List.eraseDups⟩ (fun _ => .pure (.ok 7)) [1, 2]) (.ok (), [7]) :=
+  (serialP_ok _ _ _ _).mpr ⟨[7, 7], rfl, by simp, by decide⟩
+
 /-- **Failure is atomic**: if the step returns an error, the population held afterwards is exactly
     the old one, and the error is one the child maker can produce on the old population. -/
 theorem serial_err (cm : ChildMaker ι ε) (pop after : List ι) (e : ε)
